@@ -1,1 +1,134 @@
-From BBS Require Import Common.Sx Run.R17.
+(** C17 - read caching, read fallback, replicator decorators and existence
+    caches are transparent.  Statements only; proofs are in Compose/*Proofs.v.
+
+    Sequential composites (Compose/Caching.v): backend [BA] is the fast
+    (read caching) / primary (read fallback) backend, [BB] the slow / secondary
+    one; [sa s]/[sb s] are their contents in state [s]; [fl s] are the faults
+    still to be injected, one per backend call (so the theorems that do not
+    assume [fl s = []] hold for every fault sequence); every theorem is about
+    an arbitrary state, hence about every history leading to it. *)
+From Coq Require Import List ZArith NArith Bool Arith.
+From BBS Require Import Common.Sx Common.ListX
+  Compose.Caching Compose.CachingProofs
+  Compose.ExistenceCache Compose.ExistenceCacheProofs.
+Import ListNotations.
+Open Scope Z_scope.
+
+(** ** Read caching / read fallback: an object is returned iff the fast/primary
+    or the slow/secondary backend holds it.  [cget] is the Get of both
+    composites (they differ in error texts only). *)
+
+(** "only if", for every replicator stack and under every fault sequence. *)
+Theorem readcache_readfallback_get_only_if_held : forall r d s s1,
+  cget r d s = (0, s1) -> memb d (sa s) = true \/ memb d (sb s) = true.
+Proof. exact cget_sound. Qed.
+Print Assumptions readcache_readfallback_get_only_if_held.
+
+(** "iff" when no backend call fails, with the copying replicator (or the
+    non-copying one): held => returned, not held => NOT_FOUND. *)
+Theorem readcache_readfallback_iff : forall r d s, (r = RLocal \/ r = RNoop) -> fl s = [] ->
+  fst (cget r d s) = if memb d (sa s) || memb d (sb s) then 0 else 5.
+Proof. exact cget_complete. Qed.
+Print Assumptions readcache_readfallback_iff.
+
+(** Uploads go to the slow (read caching) respectively primary (fallback)
+    backend only: exactly one backend call, a Put there; the other backend's
+    contents are unchanged; an acknowledged upload is stored there. *)
+Theorem uploads_go_to_slow_resp_primary_only : forall k d s c s1, cput k d s = (c, s1) ->
+  (exists f, lg s1 = mkcall (put_target k) CPut [d] f :: lg s) /\
+  (forall b, b <> put_target k -> contents b s1 = contents b s) /\
+  (c = 0 -> memb d (contents (put_target k) s1) = true).
+Proof. exact cput_only_target. Qed.
+Print Assumptions uploads_go_to_slow_resp_primary_only.
+
+Example put_targets : put_target ReadCaching = BB /\ put_target ReadFallback = BA.
+Proof. split; reflexivity. Qed.
+
+(** After a successful read through a copying replicator (local, possibly
+    under deduplicating / concurrency-limiting decorators) the object is in
+    the fast respectively primary backend - under every fault sequence. *)
+Theorem read_through_populates : forall r d s s1, copying r = true ->
+  cget r d s = (0, s1) -> memb d (sa s1) = true.
+Proof. exact cget_populates. Qed.
+Print Assumptions read_through_populates.
+
+(** FindMissing through a fallback reports exactly the objects missing from
+    both backends (every replicator, every fault sequence: if it answers at
+    all) ... *)
+Theorem fallback_fm_exact : forall r ds s m s1, cfm ReadFallback r ds s = (0, m, s1) ->
+  m = filter (fun d => negb (memb d (sa s)) && negb (memb d (sb s))) ds.
+Proof. exact cfm_fallback_exact. Qed.
+Print Assumptions fallback_fm_exact.
+
+(** ... and it does answer when no backend call fails; objects only the
+    secondary held are in the primary afterwards. *)
+Theorem fallback_fm_answers_and_repairs : forall ds s, fl s = [] ->
+  let '(c, m, s1) := cfm ReadFallback RLocal ds s in
+  c = 0 /\ forall d, In d ds -> memb d (sb s) = true -> memb d (sa s1) = true.
+Proof. exact cfm_fallback_total. Qed.
+Print Assumptions fallback_fm_answers_and_repairs.
+
+(** Replication only ever adds objects of the source to the sink. *)
+Theorem replication_only_copies : forall r ds s c s1, rmultiple r ds s = (c, s1) -> grows s s1.
+Proof. exact rmultiple_grows. Qed.
+Print Assumptions replication_only_copies.
+
+(** Non-vacuity: object 1 only in the slow backend; a read through the local
+    replicator returns it and it is in the fast backend afterwards; with a
+    failing sink Put (fault at the third call) the read fails with that code. *)
+Example read_through_example :
+  let s := mkst [0%nat] [1%nat] [] [] in
+  fst (cget RLocal 1 s) = 0 /\ sa (snd (cget RLocal 1 s)) = [0%nat; 1%nat] /\
+  fst (cget RLocal 1 (mkst [0%nat] [1%nat] [0; 0; 14] [])) = 14 /\
+  fst (cget (RDedup RLocal) 2 s) = 5.
+Proof. vm_compute. repeat split; reflexivity. Qed.
+
+(** ** Existence cache (Compose/ExistenceCache.v)
+    [sound_hist] unfolds, along a history of decorator calls, direct cache
+    calls, backend changes and clock advances, to: whatever a FindMissing /
+    RemoveExisting answered from the cache at clock reading t (a requested
+    digest not passed on to the backend) has a recording (d, t0) - a backend
+    answer "present" obtained by the decorator, or a direct Add - made earlier
+    with t0 <= t <= t0 + duration.  All histories, all sizes, all durations. *)
+Theorem existence_cache_sound : forall size dur ops,
+  sound_hist size dur ops (mkest ec_empty 0%N []) [].
+Proof. exact ec_sound. Qed.
+Print Assumptions existence_cache_sound.
+
+(** The decorator returns the backend's answer for what it asked. *)
+Theorem existence_cache_transparent : forall size dur ds d1 d2 s,
+  let ob := fst (estep size dur (EFm ds d1 d2 0%Z) s) in
+  exists asked, e_call ob = Some asked /\ e_code ob = 0%Z /\
+                e_ans ob = filter (fun d => negb (memn d (backend s))) asked.
+Proof. exact efm_transparent. Qed.
+Print Assumptions existence_cache_transparent.
+
+(** Non-vacuity: size 1, duration 5.  Object 0 is recorded at time 0, hidden
+    at time 5, asked again at time 6; recording object 1 evicts object 0. *)
+Example existence_example :
+  let ops := [EBackendPut 0; EBackendPut 1; EFm [0%nat] 0 0 0; EBackendDel 0;
+              EFm [0%nat] 5 0 0; EFm [0%nat] 1 0 0; EBackendPut 0;
+              EFm [0%nat] 0 0 0; EFm [1%nat] 0 0 0; EFm [0%nat; 1%nat] 0 0 0] in
+  map (fun o => (e_ans o, e_call o)) (fst (erun 1 5 ops (mkest ec_empty 0%N []))) =
+  [([], None); ([], None); ([], Some [0%nat]); ([], None);
+   ([], Some []); ([0%nat], Some [0%nat]); ([], None);
+   ([], Some [0%nat]); ([], Some [1%nat]); ([], Some [0%nat])].
+Proof. vm_compute. reflexivity. Qed.
+
+(** ** LRU set: Insert/Touch move the element to the back of the queue and
+    keep the order of the others; Peek/Remove take the front, i.e. the element
+    whose last Insert/Touch is the oldest. *)
+Theorem lru_touch_moves_to_back : forall v s, lru_ok s -> In v (lq s) ->
+  lru_ok (lru_touch v s) /\ lq (lru_touch v s) = remove_nat v (lq s) ++ [v].
+Proof. exact lru_touch_spec. Qed.
+Print Assumptions lru_touch_moves_to_back.
+
+Theorem lru_insert_appends : forall v s, lru_ok s -> ~ In v (lq s) ->
+  lru_ok (lru_insert v s) /\ lq (lru_insert v s) = lq s ++ [v].
+Proof. exact lru_insert_spec. Qed.
+Print Assumptions lru_insert_appends.
+
+Theorem lru_evicts_front : forall s v r, lru_ok s -> lq s = v :: r ->
+  lru_peek s = Some v /\ lru_ok (lru_remove s) /\ lq (lru_remove s) = r.
+Proof. exact lru_remove_spec. Qed.
+Print Assumptions lru_evicts_front.
